@@ -67,7 +67,7 @@ inline Outcome attempt(F&& f)
 }
 
 // Crash reporting: a worker that dies announces where it was.
-inline void crash_handler(int sig)
+inline void crash_record_out(int sig)
 {
   char buf[256];
   int n = snprintf(buf,
@@ -95,15 +95,29 @@ inline void crash_handler(int sig)
       (void)!write(1, "\n", 1);
     }
   }
+}
+inline void crash_handler(int sig)
+{
+  crash_record_out(sig);
   _exit(70 + (sig == SIGSEGV ? 1 : sig == SIGABRT ? 2 : sig == SIGBUS ? 3 : sig == SIGALRM ? 4 : 0));
 }
 inline void terminate_handler()
 {
   crash_handler(SIGABRT);
 }
+#if defined(__SANITIZE_ADDRESS__)
+extern "C" void __sanitizer_set_death_callback(void (*)(void));
+inline void sanitizer_death()
+{
+  crash_record_out(77); // the sanitizer goes on to end the process with its own exit code
+}
+#endif
 inline void install_crash_handlers(const char* dir)
 {
   g_crash_dir = dir;
+#if defined(__SANITIZE_ADDRESS__)
+  __sanitizer_set_death_callback(sanitizer_death);
+#endif
   std::set_terminate(terminate_handler);
   struct sigaction sa;
   memset(&sa, 0, sizeof sa);
